@@ -146,6 +146,7 @@ pub fn apply_tagged_body_filters(doc: &str, filters: &[Value]) -> String {
         match action {
             "append_text" => out.push_str(f["content"].as_str().unwrap_or("")),
             "prepend_text" => out = format!("{}{}", f["content"].as_str().unwrap_or(""), out),
+            "replace_text" => out = f["content"].as_str().unwrap_or("").to_string(),
             "append_child" => {
                 let last = f["element_tree"].as_array().and_then(|a| a.last()).and_then(|v| v.as_str()).unwrap_or("body");
                 // with a selector the filter acts only when no element of the target matches it (here: meta[name="d"])
